@@ -30,6 +30,7 @@ import (
 	"fmt"
 	"os"
 	"runtime/pprof"
+	"sync"
 	"sync/atomic"
 	"time"
 
@@ -72,7 +73,7 @@ func main() {
 	if rep.Thorough() {
 		D = 5
 	}
-	counterPart(D)
+	counterPart(D, rep.Thorough())
 	t3 := time.Now()
 	rep.Extra("seconds_registry_chunk_counter", []float64{t1.Sub(t0).Seconds(), t2.Sub(t1).Seconds(), t3.Sub(t2).Seconds()})
 	rep.Extra("registry_states", nStates)
@@ -93,6 +94,27 @@ func main() {
 }
 
 var stopProfile = func() {}
+
+// record is rep.FailLazy; while replaying, only the replayed class is recorded (the case may
+// fail other classes too - they are printed, but their own minimal witnesses are left alone).
+var (
+	replayClass string
+	alsoMu      sync.Mutex
+	alsoFails   = map[string]bool{}
+)
+
+func recordFailure(class string, size int, mk func() engine.Failure) {
+	if replayClass != "" && class != replayClass {
+		alsoMu.Lock()
+		if !alsoFails[class] {
+			alsoFails[class] = true
+			fmt.Printf("NOTE: the replayed case also fails class %s: %s\n", class, clip(mk().Detail, 300))
+		}
+		alsoMu.Unlock()
+		return
+	}
+	rep.FailLazy(class, size, mk)
+}
 
 func selftest() {
 	if err := refpal.SelfTest(); err != nil {
@@ -143,7 +165,7 @@ func registryPart() {
 }
 
 func chunkCases(thorough bool) []Case {
-	statuses := []string{"empty", "full", "minecraft:full"}
+	statuses := []string{"empty", "minecraft:full"}
 	bes := []string{"none", "empty", "nested", "empty+nested", "nested+empty"}
 	if thorough {
 		statuses = []string{"empty", "structure_starts", "structure_references", "biomes", "noise", "surface", "carvers", "liquid_carvers", "features", "light", "spawn", "heightmaps", "full", "", "minecraft:full"}
@@ -165,7 +187,7 @@ func chunkCases(thorough bool) []Case {
 						for _, be := range bes {
 							for _, light := range []string{"absent", "present", "mixed"} {
 								for _, st := range statuses {
-									cases = append(cases, Case{Part: "chunk", Secs: secs, Blocks: bs.Name, Biomes: os.Name, Mix: mix, HM: hm, BE: be, Light: light, Status: st, Ordinal: len(cases)})
+									cases = append(cases, Case{Part: "chunk", Secs: secs, Blocks: bs.Name, Biomes: os.Name, Mix: mix, HM: hm, BE: be, Light: light, Status: st, Ordinal: len(cases), leanNet: st != statuses[0]})
 								}
 							}
 						}
@@ -229,6 +251,7 @@ func replay() {
 		engine.HarnessError("bad case: %v", err)
 	}
 	fmt.Printf("replaying %s case of class %s\n", c.Part, rp.Class)
+	replayClass = rp.Class
 	for i := 0; i < 5; i++ {
 		switch c.Part {
 		case "registry":
